@@ -38,6 +38,12 @@ _BOUNDARY_INTS = ["0", "1", "2", "3", "127", "128", "255", "256", "32767", "3276
 _INT_PLACES = ["size(a, {N})", "size(f, {N})", "size(b, {N})", "a[{N}]", "a[{N}, 0]", "a[0, {N}]", "f[{N}, 0]", "f[0, {N}]", "b[{N}, 0]", "v[{N}]", "fv[{N}]", "m[{N}]", "{N}",
                "a[0, 0] + {N}", "{N} as int8", "{N} as uint64", "v[0] * {N}", "size(v) + {N}", "a[x:{N}]", "a[y:{N}, x:0]", "zz ** {N}", "fv[{N}] + fv[0]"]
 EXPRS += [t.replace("{N}", n) for t in _INT_PLACES for n in _BOUNDARY_INTS]
+# the words of the expression language (operators spelled as words, function names, type names, literals) and identifiers that begin with them, in every
+# syntactic position: where an operand, an operator, a member name, an argument, a type is expected
+_WORDS = ["as", "size", "dimensionIndex", "dimensionCount", "switch", "null", "true", "false", "int", "string", "ascent", "asx", "sizeOf", "a"]
+_WORD_PLACES = ["{W}", "-{W}", "({W})", "{W} + 1", "1 + {W}", "a.{W}", "{W}.b", "r.{W}", "a[{W}]", "a[{W}:0]", "a[0, {W}]", "size(a, {W})", "size({W})", "{W} as int", "zz as {W}",
+                "zz {W} int", "zz {W} {W} int", "zz as as int", "{W}(a)", "{W} {W}", "-{W} ** 2", "{W}[0]", "zz as int {W}", "(zz {W}) int", "zz + {W} as int"]
+EXPRS += [t.replace("{W}", w) for t in _WORD_PLACES for w in _WORDS]
 
 
 def mutate_text(text: str, r: random.Random) -> str:
